@@ -5,10 +5,45 @@ from .client import Server, ServerDied, Timeout, FrameError, tdp, panic_signatur
 from . import gen, layout
 
 
+def arrive(srv, uri, text, salt, p=.33):
+    """opens the document; with probability p it *arrives* at the text by an edit: an earlier version (a random span and, half of the
+    time, one blank missing) is opened and one didChange notification restores it. The server then holds exactly `text`, so every
+    oracle applies unchanged, but the answers come from the incrementally updated analysis. Returns True if it arrived by an edit."""
+    r = random.Random("arrive/%d/%s" % (len(text), salt))
+    if p and r.random() < p and len(text) > 2:
+        a, e = sorted(r.sample(range(len(text) + 1), 2))
+        if r.random() < .5: e = min(e, a + r.choice([1, 3, 10, 40]))
+        if e > a and not (a > 0 and text[a - 1] == "\r" and text[a:a + 1] == "\n") and not (text[e - 1:e] == "\r" and text[e:e + 1] == "\n"):
+            t0 = text[:a] + text[e:]; span = text[a:e]
+            T0 = layout.Text(t0); pa = T0.lsp(len(text[:a].encode()))
+            changes = [{"range": {"start": pa, "end": pa}, "text": span}]
+            ws = [i for i, c in enumerate(text) if c == " " and not (a <= i < e)]
+            if ws and r.random() < .5:
+                # ... and a second, layout-only change in the same notification (a blank that was missing as well)
+                w = r.choice(ws)
+                w0 = w if w < a else w - (e - a)                     # index of the blank's place in t0
+                t00 = t0[:w0] + t0[w0 + 1:]
+                a0 = a if a <= w0 else a - 1                         # index of the span's place in t00
+                T00 = layout.Text(t00); pa = T00.lsp(len(t00[:a0].encode()))
+                t1 = t00[:a0] + span + t00[a0:]
+                w1 = w                                               # after the span is back the blank belongs at its final index
+                if w < a: w1 = w
+                pw = layout.Text(t1).lsp(len(t1[:w1].encode()))
+                changes = [{"range": {"start": pa, "end": pa}, "text": span}, {"range": {"start": pw, "end": pw}, "text": " "}]
+                t0 = t00
+            from . import lspmodel
+            if lspmodel.apply_changes(t0, changes) == text:          # (the harness's own arithmetic is checked against the LSP model)
+                srv.open(uri, t0); srv.change(uri, changes, 1)
+                return True
+    srv.open(uri, text)
+    return False
+
+
 class Session:
     """one server process per worker; every document gets its own URI and is closed again"""
     def __init__(s, variant="rel", diagnostics=True):
         s.variant = variant; s.diagnostics = diagnostics; s.srv = None; s.n = 0; s.deaths = 0
+        s.via_edit = .33; s.arrived = 0
 
     def server(s):
         if s.srv is None or not s.srv.alive():
@@ -16,9 +51,11 @@ class Session:
         return s.srv
 
     def open(s, text, tag="doc"):
+        """opens the document, in a third of the cases by way of an edit (see `arrive`)"""
         s.n += 1
         uri = "file:///verif/%s%d.spl" % (tag, s.n)
-        srv = s.server(); srv.drop_notes(); srv.open(uri, text)
+        srv = s.server(); srv.drop_notes()
+        if arrive(srv, uri, text, s.n, s.via_edit): s.arrived += 1
         return uri
 
     def close(s, uri):
